@@ -88,6 +88,20 @@ fn run_inner(id: &str) -> Option<(bool, String)> {
             let o = run_raw(&prog(&v), &mut []);
             (o != Out::Ok(1), format!("mov r1,-1; jeq r1,-1,+1: sign-extended immediate prescribes taken (Ok(1)), got {:?}", o))
         }
+        // consequence of the finding above for C03 / C04: the compiled engines follow the ISA, the interpreter does not
+        "engines-disagree-jmp-imm-negative" => {
+            let v = [
+                i(ebpf::MOV64_IMM, 1, 0, 0, -1),
+                i(ebpf::MOV64_IMM, 0, 0, 0, 1),
+                i(ebpf::JEQ_IMM, 1, 0, 1, -1),
+                i(ebpf::MOV64_IMM, 0, 0, 0, 2),
+                i(ebpf::EXIT, 0, 0, 0, 0),
+            ];
+            let p = prog(&v);
+            let (a, b) = both(&p);
+            let (_, c) = interp_vs_clif(&p);
+            (a != b || format!("{:?}", a) != c, format!("mov r1,-1; jeq r1,-1,+1: interpreter {:?}, x86-64 JIT {:?}, Cranelift {}", a, b, c))
+        }
         "interp-neg64-min" => {
             let v = [
                 i(ebpf::LD_DW_IMM, 0, 0, 0, 0),
